@@ -654,7 +654,9 @@ func (c *Conn) reconnect(ctx context.Context) error {
 	}
 	c.wireConn = res
 	if !c.state.CompareAndSwap(connStatusReconnecting, connStatusConnected) {
-		panic(errors.Errorf("unexpected error: expected reconnecting but %v", c.state.current))
+		// Close was called while the redial was in progress: drop the fresh connection and stay closed
+		res.Close()
+		return errors.ErrConnectionClosed
 	}
 	return nil
 }
